@@ -12,7 +12,7 @@
 #define MAXU 8
 static const char *KEYS[MAXU] = {"", "a", "b", "cc", "d", "key-with-a-longer-name", "e", "f"};
 typedef struct { unsigned char b[8]; size_t n; int kind; } val_t;   /* kind 0 = bytes (put), 1 = string (putstr), 2 = int (putint) */
-static const val_t VAL[3] = {{{1, 0, 2}, 3, 0}, {"hello", 6, 1}, {"42", 3, 2}};
+static const val_t VAL[4] = {{{1, 0, 2}, 3, 0}, {"hello", 6, 1}, {{1, 0, 3}, 3, 0}, {"42", 3, 2}};   /* v0 and v2: same length, equal up to a NUL byte */
 static int RANGE, U, NV; static size_t EFFRANGE;
 typedef struct { int present[MAXU], val[MAXU]; } model_t;
 static sm_spec_t SP;
@@ -33,7 +33,7 @@ static void canon(qhashtbl_t *t, char *out) {
         int len = 0;
         for (qhashtbl_obj_t *o = t->slots[s]; o && len < 64; o = o->next, len++) {
             int k = keyid(o->name), v = -1;
-            for (int i = 0; i < 3; i++) if (o->size == VAL[i].n && !memcmp(o->data, VAL[i].b, o->size)) v = i;
+            for (int i = 0; i < 4; i++) if (o->size == VAL[i].n && !memcmp(o->data, VAL[i].b, o->size)) v = i;
             p += sprintf(p, "%d:%d ", k, v);
         }
         if (len > n_maxchain) n_maxchain = len;
